@@ -1359,6 +1359,54 @@ def gen_sumrule():
 
 
 # ----------------------------------------------------------------------------------------
+# G7: the exported first-order basis (matrix_tools_O1.py, basis_sets_O1.py)
+# ----------------------------------------------------------------------------------------
+
+def gen_o1():
+    rel = "utils/matrix_tools_O1.py"
+    mod = parse(rel)
+    fn = find_func(mod, "_compressed_complement_projector_sum_rules_algo1", rel)
+    src = [ast.unparse(st) for st in strip_doc(fn.body)]
+    expect = ["N3 = 3 * N", "row = np.arange(N3)", "col = np.tile(range(3), N)", "data = np.zeros(N3)",
+              "data[:] = 1 / np.sqrt(N)", "c_sum_cplmt = csr_array((data, (row, col)), shape=(N3, 3))",
+              "c_sum_cplmt_compr = c_sum_cplmt.T @ compress_mat",
+              "proj_sum_cplmt = c_sum_cplmt_compr.T @ c_sum_cplmt_compr", "return proj_sum_cplmt"]
+    if src != expect:
+        fail(rel, fn, f"order-1 sum-rule complement has unexpected form: {src}")
+    rec(rel, fn, "O1 sum-rule matrix: entry 1/sqrt(N) at (3i+a, a)", True)
+    top = [ast.unparse(st) for st in strip_doc(find_func(mod, "compressed_projector_sum_rules", rel).body)]
+    if top != ["proj_cplmt = _compressed_complement_projector_sum_rules(compress_mat, N, use_mkl=use_mkl)",
+               "return scipy.sparse.identity(proj_cplmt.shape[0]) - proj_cplmt"]:
+        fail(rel, mod, f"compressed_projector_sum_rules (O1) has unexpected form: {top}")
+    disp = [ast.unparse(st) for st in strip_doc(find_func(mod, "_compressed_complement_projector_sum_rules", rel).body)]
+    if disp != ["return _compressed_complement_projector_sum_rules_algo1(compress_mat, N, use_mkl=use_mkl)"]:
+        fail(rel, mod, "order-1 sum-rule dispatcher has unexpected form")
+    rel2 = "basis_sets/basis_sets_O1.py"
+    mod2 = parse(rel2)
+    run = [ast.unparse(st) for st in strip_doc(find_func(mod2, "run", rel2, "FCBasisSetO1").body)]
+    expect_run = ["c_trans = self._get_c_trans()", "coset_reps_sum = get_compr_coset_reps_sum(self._spg_reps)",
+                  "proj_rt = coset_reps_sum",
+                  "if len(proj_rt.data) == 0:\n    raise ValueError('No basis vectors exist.')",
+                  "c_rt = eigsh_projector(proj_rt, verbose=self._log_level > 0)",
+                  "compress_mat = c_trans @ c_rt",
+                  "proj = compressed_projector_sum_rules(compress_mat, self._natom)",
+                  "self._basis_set = eigsh_projector(proj, verbose=self._log_level > 0)",
+                  "self._full_basis_set = compress_mat @ self._basis_set", "return self"]
+    if run != expect_run:
+        fail(rel2, mod2, f"FCBasisSetO1.run has unexpected form: {run}")
+    rec(rel2, find_func(mod2, "run", rel2, "FCBasisSetO1"),
+        "FCBasisSetO1.run = c_trans; coset eigsh; sum-rule eigsh; full = c_trans c_rt basis", True)
+    out = ["/- REGENERATED by tools/extract.py from matrix_tools_O1.py / basis_sets_O1.py — do not edit. -/",
+           "namespace Symfc.Gen", "",
+           "/-- the order-1 sum-rule matrix has the entry `1/√N` at `(3 i + a, a)` and nothing else, and the projector",
+           "    handed to the eigen-solver is `1 − (c_sumᵀ C)ᵀ (c_sumᵀ C)` -/",
+           "def o1SumRuleTiledIdentity : Bool := true",
+           "/-- `FCBasisSetO1.run` is the pipeline `A = c_trans`, `W₂ = eigsh(coset)`, `W₃ = eigsh(sum rule)`, `full = A W₂ W₃` -/",
+           "def o1PipelineShape : Bool := true", "", "end Symfc.Gen"]
+    return "\n".join(out) + "\n"
+
+
+# ----------------------------------------------------------------------------------------
 
 GENERATORS = {
     "PermTables": gen_perm_tables,
@@ -1372,6 +1420,7 @@ GENERATORS = {
     "Api": gen_api,
     "Eig": gen_eig,
     "SumRule": gen_sumrule,
+    "O1": gen_o1,
 }
 
 
